@@ -633,6 +633,160 @@ def guarded_recursion():
                                "features": ["exhaustive", "recursive", "guarded-recursion"], "transforms": False}
 
 
+# ------------------------------------------------------------------ wide joins (added after seeding, round 2: C15-4)
+def wide_join_program(r):
+    """Goal rules with 3-8 POSITIVE body atoms that join fan-out relations: several facts match
+    the last atom and / or middle atoms for one and the same prefix of the body (body-only
+    variables), with and without tests (!=, negated atom, binding equality) in between; lower
+    predicates may be derived (projection, composition, transitive closure), a second wide rule
+    may define the same head and an upper rule may use the head as a premise. Explained with
+    MaxProofs in {2, 3, 5}: the ALTERNATIVES of one goal then differ in the last / a middle
+    premise only (seeded C15-4: premise accumulators of alternative body solutions sharing one
+    backing array). Values 1..4 everywhere so that every chain continues."""
+    feats = {"wide-join"}
+    sig, init, cl = {}, [], []
+    npred = [0]
+
+    def newp(ar):
+        k = npred[0]
+        npred[0] += 1
+        sig[k] = ar
+        return k
+    key, blk, dom = newp(1), newp(1), newp(1)
+    vals = [1, 2, 3, 4]
+    init += [fact(key, num(v)) for v in r.sample(vals, r.choice([1, 2, 2, 3]))]
+    init += [fact(blk, num(v)) for v in r.sample(vals, r.choice([0, 1, 1, 2]))]
+    init += [fact(dom, num(v)) for v in (1, 2, 3, 4, 5)]
+    fans, fns, unary = [], [], []
+    for _ in range(r.choice([1, 2, 2, 3])):
+        b = newp(2)
+        fans.append(b)
+        for v in vals:
+            for t in r.sample(vals, r.choice([1, 2, 2, 3, 3])):
+                init.append(fact(b, num(v), num(t)))
+    for _ in range(r.choice([1, 1, 2])):
+        b = newp(2)
+        fns.append(b)
+        for v in vals:
+            if r.random() < 0.92:
+                init.append(fact(b, num(v), num(r.choice(vals))))
+    for _ in range(r.choice([1, 2])):
+        u = newp(1)
+        unary.append(u)
+        init += [fact(u, num(v)) for v in r.sample(vals, r.choice([3, 4, 4]))]
+    X, Y, Z = var(1), var(2), var(3)
+    # derived lower predicates
+    if r.random() < 0.5:
+        b = r.choice(fans)
+        t = newp(2)
+        x = r.random()
+        if x < 0.35:
+            cl.append(clause(atom(t, X, Y), [["atom", atom(b, X, Y)]] + ([["ineq", X, Y]] if r.random() < 0.5 else [])))
+        elif x < 0.65:
+            cl.append(clause(atom(t, X, Z), [["atom", atom(b, X, Y)], ["atom", atom(r.choice(fns + fans), Y, Z)]]))
+        else:
+            cl.append(clause(atom(t, X, Y), [["atom", atom(b, X, Y)]]))
+            cl.append(clause(atom(t, X, Z), [["atom", atom(b, X, Y)], ["atom", atom(t, Y, Z)]]))
+            feats.add("recursive")
+        fans.append(t)
+        feats.add("derived-premise")
+    if r.random() < 0.3:
+        u = newp(1)
+        cl.append(clause(atom(u, X), [["atom", atom(r.choice(unary), X)], ["neg", atom(blk, X)]]))
+        unary.append(u)
+        feats.update(["derived-premise", "neg"])
+
+    def wide_rule(h, har, k):
+        nv = [1]
+        bound = [1]
+        body = [["atom", atom(key, X)]] if r.random() < 0.7 else None
+        if body is None:
+            nv[0] = 2
+            bound.append(2)
+            body = [["atom", atom(r.choice(fans + fns), X, Y)]]
+        nfan = 0
+        ntest = 0
+        last_fan = r.random() < 0.75
+        while sum(1 for l in body if l[0] == "atom") < k:
+            npos = sum(1 for l in body if l[0] == "atom")
+            is_last = npos == k - 1
+            # a test between two atoms
+            if ntest < 3 and r.random() < 0.22:
+                x = r.random()
+                v = var(r.choice(bound))
+                if x < 0.3:
+                    o = var(r.choice(bound)) if len(bound) > 1 and r.random() < 0.5 else cst(num(9))
+                    if o != v:
+                        body.append(["ineq", v, o])
+                        feats.add("ineq")
+                        ntest += 1
+                elif x < 0.7:
+                    body.append(["neg", atom(blk, v)])
+                    feats.add("neg")
+                    ntest += 1
+                else:
+                    nv[0] += 1
+                    w = nv[0]
+                    e = app(r.choice(["plus", "minus"]), v, cst(num(1)))
+                    body.append(["eq", var(w), e] if r.random() < 0.7 else ["eq", e, var(w)])
+                    body.append(["atom", atom(dom, var(w))])
+                    feats.add("eq-bind")
+                    ntest += 1
+                continue
+            x = r.random()
+            src = var(r.choice(bound[-2:] if r.random() < 0.6 else bound))
+            if (is_last and last_fan) or (not is_last and x < 0.3 and nfan < 2):
+                rel = r.choice(fans)
+                nfan += 1
+                if r.random() < 0.06:
+                    body.append(["atom", atom(rel, src, ["wild"])])
+                    feats.add("wild")
+                else:
+                    nv[0] += 1
+                    bound.append(nv[0])
+                    body.append(["atom", atom(rel, src, var(nv[0]))] if r.random() < 0.85 else
+                                ["atom", atom(rel, var(nv[0]), src)])
+            elif x < 0.55:
+                body.append(["atom", atom(r.choice(unary), src)])
+            elif x < 0.85:
+                nv[0] += 1
+                bound.append(nv[0])
+                body.append(["atom", atom(r.choice(fns), src, var(nv[0]))])
+            elif x < 0.93 and len(bound) > 1:
+                body.append(["atom", atom(r.choice(fans), src, var(r.choice(bound)))])
+            else:
+                body.append(["atom", atom(r.choice(fans), cst(num(r.choice(vals))), src)])
+        hargs = [X]
+        if har == 2:
+            others = [v for v in bound if v != 1]
+            hargs.append(var(r.choice(others)) if others and r.random() < 0.85 else cst(num(r.choice(vals))))
+        return clause(atom(h, *hargs), body)
+    har = 1 if r.random() < 0.75 else 2
+    h = newp(har)
+    klens = [3, 4, 4, 4, 5, 6, 6, 7, 7, 8]
+    cl.append(wide_rule(h, har, r.choice(klens)))
+    if r.random() < 0.3:
+        cl.append(wide_rule(h, har, r.choice(klens)))
+        feats.add("two-wide-rules")
+    if r.random() < 0.35:
+        top = newp(1)
+        body = [["atom", atom(key, X)], ["atom", atom(h, X)] if har == 1 else ["atom", atom(h, X, Y)]]
+        if r.random() < 0.5:
+            body.reverse()
+        cl.append(clause(atom(top, X), body))
+        feats.add("wide-as-premise")
+    r.shuffle(cl)
+    seen, uniq = set(), []
+    for f in init:
+        t = dc.fact_text(f)
+        if t not in seen:
+            seen.add(t)
+            uniq.append(f)
+    r.shuffle(uniq)
+    strat = dc.stratify(cl)
+    return {"clauses": cl, "layers": strat, "init": uniq, "pre": [], "features": sorted(feats), "transforms": False}
+
+
 # ------------------------------------------------------------------ exhaustive block
 def exhaustive_programs():
     """Every program of the seed rule p2(X) :- p1(X) plus one free rule with head p2(X) and one
@@ -801,6 +955,45 @@ def tree_stats(goals, mode):
     return nodes, depth
 
 
+def prem_facts(n):
+    return [json.dumps(c.get("fact"), sort_keys=True) for c in n.get("prem") or []]
+
+
+def alt_findings(goals, modes, st=None):
+    """ORACLE on Go's own output (not the Coq observer; implied by it for accepted proofs, see
+    Prov/SeededProofs.v alternatives_bindings_agree): the alternatives returned for ONE goal that
+    instantiate the same rule and report DIFFERENT bindings must have different premise facts -
+    every reported variable is an argument of the head or of a positive body atom
+    (provenance.collectVars), the head is the goal in all of them, so a differing variable shows
+    in a premise. Also fills the coverage counters of st: pairs of alternatives of one rule by
+    (number of premises, first position at which the premise facts differ)."""
+    bad = []
+    for g in goals:
+        for mode in modes:
+            ps = [p for p in (g.get(mode) or {}).get("proofs", []) if p["k"] == "derived"]
+            if st is not None and len(ps) >= 2:
+                st["alt_goals"][mode] += 1
+            for a in range(len(ps)):
+                for b in range(a + 1, len(ps)):
+                    x, y = ps[a], ps[b]
+                    if x["ri"] != y["ri"] or x["ri"] < 0:
+                        continue
+                    fx, fy = prem_facts(x), prem_facts(y)
+                    if st is not None and len(fx) == len(fy):
+                        d = next((k for k in range(len(fx)) if fx[k] != fy[k]), -1)
+                        key = "%s premises=%d first_difference=%s" % (mode, len(fx), "none" if d < 0 else str(d + 1))
+                        st["alt_pairs"][key] = st["alt_pairs"].get(key, 0) + 1
+                        if len(fx) >= 4 and d >= 3:
+                            st["alt_same_prefix3"][mode] += 1
+                    if has_partial(x) or has_partial(y):
+                        continue
+                    if (x.get("b") or []) != (y.get("b") or []) and fx == fy:
+                        bad.append({"kind": "alternatives with different bindings but the same premises", "mode": mode,
+                                    "goal": g["fact"], "rule": x.get("rule"), "bindings": [x.get("b"), y.get("b")],
+                                    "premises": [c.get("fact") for c in x.get("prem") or []], "ids": [x["id"], y["id"]]})
+    return bad
+
+
 def need_complete(prog, opts, mode):
     """is a complete proof owed for every stored fact?"""
     if opts["max_depth"] != 0:
@@ -813,6 +1006,7 @@ def need_complete(prog, opts, mode):
 
 
 NCYCLIC_QUICK = 80
+NWIDE_QUICK = 40
 
 CODES = {2: "a returned proof that is not flagged partial is not a valid derivation of the goal",
          3: "no complete valid proof returned for a fact of the evaluated store"}
@@ -885,7 +1079,8 @@ def evaluate(ck, progs, optss, origin, ref_every=4):
     terms, where = [], []
     st = {"stage": {}, "goals": 0, "proofs": {"posthoc": 0, "recorded": 0}, "noproof": {"posthoc": 0, "recorded": 0},
           "nodes": 0, "max_depth": 0, "ids": 0, "ref_runs": 0, "rule_mismatch": 0, "store_diff": 0, "partial_proofs": 0,
-          "tba_nodes": {"posthoc": 0, "recorded": 0}}
+          "tba_nodes": {"posthoc": 0, "recorded": 0}, "alt_goals": {"posthoc": 0, "recorded": 0}, "alt_pairs": {},
+          "alt_same_prefix3": {"posthoc": 0, "recorded": 0}, "alt_bad": 0}
     for i, o in enumerate(outs):
         rep0 = {"property": "C15", "origin": origin[i], "program": progs[i], "opts": optss[i], "src": go_cases[i]["src"],
                 "pre": go_cases[i]["pre"]}
@@ -914,6 +1109,12 @@ def evaluate(ck, progs, optss, origin, ref_every=4):
             st["ids"] += nids
             if bad and len(ck.violations) < 5:
                 ck.violation(dict(rep0, kind="proof identifiers are not a function of proof content", findings=bad[:3]))
+            abad = alt_findings(goals, optss[i]["modes"], st)
+            st["alt_bad"] += len(abad)
+            if abad and len(ck.violations) < 5:
+                ck.violation(dict(rep0, kind="alternative proofs of one goal instantiate one rule under different bindings but "
+                                  "have the same premises (oracle on Go's output: the premises are not the body literals under "
+                                  "the reported bindings in at least one of them)", findings=abad[:3]))
             entries, idx = [], []
             for mode in optss[i]["modes"]:
                 need = need_complete(progs[i], optss[i], mode)
@@ -983,6 +1184,15 @@ def run(ck):
                       "modes": ["posthoc"] if "idb-init-recursive" in p["features"] else ["posthoc", "recorded"]})
         origin.append("cyclic")
     ncyclic = len(progs) - ncorpus - nrandom
+    # wide joins (3-8 positive body atoms, fan-out relations), alternatives requested: MaxProofs 2, 3, 5; both modes
+    # (a wildcard in a body atom: post-hoc only, N83)
+    for k in range(ck.n(NWIDE_QUICK, 800)):
+        p = wide_join_program(rng)
+        progs.append(p)
+        optss.append({"max_proofs": rng.choice([2, 3, 3, 5]), "max_depth": 0,
+                      "modes": ["posthoc"] if "wild" in p["features"] else ["posthoc", "recorded"]})
+        origin.append("wide")
+    nwide = len(progs) - ncorpus - nrandom - ncyclic
     nexh = 0
     exh_blocks = {}
     if not ck.quick:
